@@ -1,0 +1,21 @@
+//go:build verif
+
+package util
+
+// VerifRegex exposes the sources of the unexported regular expressions.
+func VerifRegex() map[string][][2]string {
+	res := map[string][][2]string{"regFilter": VerifList(regFilter)}
+	for name, re := range regHex {
+		res["regHex."+name] = [][2]string{{re.String(), ""}}
+	}
+	return res
+}
+
+// VerifList turns a RegexReplList into (source, replacement) pairs.
+func VerifList(rr RegexReplList) [][2]string {
+	res := make([][2]string, 0, len(rr))
+	for _, r := range rr {
+		res = append(res, [2]string{r.Regex.String(), r.Repl})
+	}
+	return res
+}
